@@ -68,6 +68,13 @@ def record(run, name):
     p = sh(["go", "test", "-tags", "verif", "-vet=off", "-count=1", "-run", STABLE, "./tests/"], cwd=REPO, env=env, timeout=600, check=False)
     if p.returncode != 0 or not os.path.exists(raw_path):
         raise Inconclusive("the repository's integration tests did not pass with -tags verif:\n" + (p.stdout or "")[-2000:])
+    out = os.path.join(run.dir, name + ".events.ndjson")
+    n, ns = convert(raw_path, out, "repo-tests-")
+    return out, n, ns
+
+
+def convert(raw_path, out, prefix):
+    """hook log ("<ms> <kind> <handler> <hex>") -> one SessionEventTrace trace per handler; returns (events, sessions)"""
     sessions = {}
     with open(raw_path) as f:
         for line in f:
@@ -83,10 +90,12 @@ def record(run, name):
                 s["events"].append(dict(t=t, kind="in", a=action(raw)))
             elif kind == "out":
                 s["events"].append(dict(t=t, kind="out", m=digest(raw, s["seen"])))
-    out = os.path.join(run.dir, name + ".events.ndjson")
     n = 0
+
+    def order(x):
+        return (0, int(x[0]), "") if x[0].isdigit() else (1, 0, x[0])
     with open(out, "w") as f:
-        for hid, s in sorted(sessions.items(), key=lambda x: int(x[0])):
+        for hid, s in sorted(sessions.items(), key=order):
             if not s["events"] or s["role"] is None:
                 continue
             outs = [e for e in s["events"] if e["kind"] == "out"]
@@ -96,14 +105,14 @@ def record(run, name):
                     hb = e["m"]["hb"]
                     break
             start = (outs[0]["m"]["seq"] - 1) if outs and outs[0]["m"]["seq"] > 0 else 0
-            sid = "repo-tests-%s-%s" % (hid, s["role"][0])
+            sid = "%s%s-%s" % (prefix, hid, s["role"][0])
             f.write(json.dumps(dict(k="einit", id=sid, i=0, cfg=dict(role=s["role"], hbMin=1, hbMax=60, hbCfg=hb, encCfg="0", allowed=["0"],
                                                                      closeMs=0, startSeq=start))) + "\n")
             for i, e in enumerate(s["events"]):
                 r = dict(k="ev", id=sid, i=i + 1, t=e["t"], kind=e["kind"], a=e.get("a", sc.act("none")), m=e.get("m", digest(b"", [])))
                 f.write(json.dumps(r) + "\n")
                 n += 1
-    return out, n, len(sessions)
+    return n, len(sessions)
 
 
 def validate(run, path, name):
